@@ -68,6 +68,9 @@ func (u *controlUnit) cycle(cycle int) {
 	if u.msi.staleState {
 		u.msiStatesCopy = u.msi.copyState()
 		u.msi.staleState = false
+		// The instructions pushed before this cycle may have been picked by an
+		// execute unit meanwhile: they can't be asked to forward anymore
+		u.pushedRunnersInPreviousCycle = nil
 		// Return to simulate that it takes a cycle to sync the MSI state
 		return
 	}
